@@ -635,6 +635,12 @@ func (fr *frame) applyContract(d *Decl, callee *ssa.Function, sig *types.Signatu
 		f := post.trBool(c.E)
 		vc.assumeG(g, f)
 	}
+	// `defines e`: the implementation *is* the abstract (interface-level) function at its receiver type; assumed at
+	// call sites, not an obligation of the body (listed as an assumption)
+	for _, c := range d.Get("defines") {
+		vc.note("DEFINITIONAL on " + d.Name + ": " + c.Text)
+		vc.assumeG(g, post.trBool(c.E))
+	}
 	// ghost updates declared by the callee: "ghost-set name value"
 	for _, c := range d.Get("ghost-set") {
 		f := strings.Fields(c.Text)
@@ -701,6 +707,10 @@ func (fr *frame) atCallClauses(key string, st *State, g string, args []string, a
 			env.vars[fmt.Sprintf("a%d", k)] = sval{t: args[k], typ: argT[k]}
 		}
 		root.atCallN++
+		if root.atCallSeen == nil {
+			root.atCallSeen = map[*Clause]bool{}
+		}
+		root.atCallSeen[cl] = true
 		vc.oblige("at-call", fmt.Sprintf("%s#%d:%s", shortKey(key), root.atCallN, lab), g, env.trBool(e), "at the call of "+key+": "+body, root.props, posOf(fr.fn, pos))
 	}
 }
